@@ -58,6 +58,7 @@ type FuncContract struct {
 	LoopMod  map[int][]Expr
 	LoopAssume map[int][]*Clause
 	Decreases *Clause
+	GhostDefs []*Clause
 	Assumes  []*Clause
 	Opts     map[string]string
 	Line     int
@@ -247,6 +248,12 @@ func parseContractFile(path, pkgPath string, cs *Contracts) error {
 					return err
 				}
 				cur.Decreases = cl
+			case "ghostdef":
+				cl, err := mkClause("ghostdef", rest)
+				if err != nil {
+					return err
+				}
+				cur.GhostDefs = append(cur.GhostDefs, cl)
 			case "requires", "ensures", "panics", "assume":
 				cl, err := mkClause(word, rest)
 				if err != nil {
